@@ -87,6 +87,11 @@ class BLOB(Element):
     new_message_class = one_parts.OneBLOB
 
     def set_value_from_message(self, msg):
+        if msg.value is None:
+            # empty or absent payload: there is no BLOB to decode
+            self._value = None
+            return
+
         blob_value = values.BLOB.from_base64(msg.value, msg.format)
         assert (
             int(msg.size) == blob_value.size
